@@ -567,7 +567,7 @@ func init() {
 	register(ruleSelect, ruleLast, ruleTrunc, ruleMethodTypes)
 	addProp(&PropSpec{
 		ID:          "C14",
-		Rules:       []string{"R-SELECT", "R-LAST", "R-TRUNC", "R-F2I", "R-STATE", "R-MODEGUARD", "R-LAUNDER", "R-LISTINDEX", "R-SUBEVAL", "R-LITCHAIN", "R-EXECADDR", "R-SUBBOUNDS", "R-COLLMONO", "R-INPUT-RO"},
+		Rules:       []string{"R-SELECT", "R-LAST", "R-TRUNC", "R-F2I", "R-STATE", "R-MODEGUARD", "R-LAUNDER", "R-LISTINDEX", "R-SUBEVAL", "R-LITCHAIN", "R-EXECADDR", "R-SUBBOUNDS", "R-COLLMONO", "R-INPUT-RO", "R-RESUPPRESS", "R-JSONNUM"},
 		Explanation: "Selection by position as shapes of the subscript executor: the element loaded at array[i] reaches the continuation with no branch on its value; `last` is the recorded length minus one of the innermost subscripted array (recorded before the subscripts are evaluated, restored on every exit); subscript values are truncated, finiteness-checked and range-checked against int32; the out-of-bounds error is guarded by strictness; a failed subscript expression is never mistaken for index 0.",
 		Decided: []string{"R-SELECT: no value-dependent branch between array[i] and the continuation", "R-LAST: `last` = recorded size − 1; hard error outside a subscript",
 			"R-TRUNC + R-F2I: truncating conversion after a NaN/Inf check, int32 range test on the result", "R-STATE: innermost size restored on every exit",
@@ -577,7 +577,7 @@ func init() {
 	})
 	addProp(&PropSpec{
 		ID:          "C16",
-		Rules:       []string{"R-METHODTYPES", "R-F2I", "R-FINITE", "R-OVF", "R-TOWER", "R-STATE", "R-RADIX", "R-EMPTYPROD", "R-ERRFIRST", "R-DIGITRANGE"},
+		Rules:       []string{"R-METHODTYPES", "R-F2I", "R-FINITE", "R-OVF", "R-TOWER", "R-STATE", "R-RADIX", "R-EMPTYPROD", "R-ERRFIRST", "R-DIGITRANGE", "R-VARSIDENT", "R-JSONNUM"},
 		Explanation: "Domains and ranges of the item methods as finite tables and guard discipline: for each of the 12 methods the set of item types that reach the continuation is computed by walking the method with the input type fixed (abstract interpretation) and compared with the documented domain, every other type must leave through a suppressible error; conversions to integers are range-guarded as evaluated in float64; computed doubles are finiteness-checked; integer callbacks cannot wrap; the numeric representations are handled together; no method arm is missing.",
 		Decided: []string{"R-METHODTYPES: accepted-type table of all 12 methods (156 cells) and suppressible rejection", "R-F2I: .integer()/.bigint() conversions are range-safe (2^63 included)",
 			"R-FINITE: .double()/.number()/.decimal() never yield Inf/NaN", "R-OVF: .abs() cannot wrap", "R-TOWER", "R-METHODTYPES also reports a method constant without an arm in the dispatcher"},
